@@ -42,7 +42,33 @@ let () =
       let fl = fit 0 fl in
       let w = { wbuf = buf; wfrags = List.map nat_of_int fl; wvis = O; wst = dinit (nat_of_int slack) } in
       let ops = parse_ops ops in
+      if int_of_string v = 4 then begin
+        (* mpt_decode_command against Cobs/TextModel.cmd_call on the flat view of the readable bytes;
+           specification: the command header followed by each zero-terminated text of the stream *)
+        let st = ref { tcurr = nat_of_int slack; tpos = O; tlen = O; tmsg = None } in
+        let cur = ref buf and vis = ref 0 in
+        let toks = List.map (fun o -> match o with
+          | DVis n -> vis := min (int_of_nat n) total; "-"
+          | DDec ->
+            let ((r, st'), img) = cmd_call !st (take !vis !cur) in
+            st := st'; cur := img @ drop !vis !cur;
+            let rc = match r with TMsg -> "1" | TMore -> "0" | TErr e -> string_of_int (errno e) in
+            let msg = match r, st'.tmsg with
+              | TMsg, Some k -> hex_of_bytes (take (int_of_nat k) (drop (int_of_nat st'.tpos) img))
+              | _ -> "-" in
+            Printf.sprintf "D:%s|0,0,%d,%d,%d,%d|%s|%s" rc (int_of_nat st'.tcurr) (int_of_nat st'.tpos) (int_of_nat st'.tlen)
+              (match st'.tmsg with Some k -> int_of_nat k | None -> -1) msg (hex_of_bytes img)
+          | DReset -> st := { tcurr = O; tpos = O; tlen = O; tmsg = None }; "-"
+          | _ -> "?") ops in
+        Printf.printf "M %s %s\n" id (String.concat " " toks);
+        let rec bodies acc curb l = match l with
+          | [] -> List.rev acc
+          | b :: r -> if int_of_n b = 0 then bodies (List.rev curb :: acc) [] r else bodies acc (b :: curb) r in
+        let frames = List.map (fun b -> hex_of_bytes (cmd_header @ b)) (bodies [] [] stream) in
+        let sline = "L:" ^ String.concat "," frames in
+        Printf.printf "S %s %s\n" id (String.concat " " (List.map (fun o -> match o with DDec | DPeek -> sline | _ -> "-") ops))
+      end else begin
       let v = variant (int_of_string v) in
       Printf.printf "M %s %s\n" id (String.concat " " (List.map show (drun v w ops)));
-      Printf.printf "S %s %s\n" id (String.concat " " (List.map show (dsrun v stream ops)))
+      Printf.printf "S %s %s\n" id (String.concat " " (List.map show (dsrun v stream ops))) end
     | _ -> ()) (read_lines ic)
